@@ -131,13 +131,16 @@ Inductive sres :=
 | RNormal (st : state) | RBreak (st : state) | RContinue (st : state)
 | RReturn (v : val) (st : state) | RErr | RFuel.
 
+(** integers are 64-bit and every operation is checked: a result outside the range is a run-time error *)
+Definition in_i64 (z : Z) : bool := (Z.leb (-9223372036854775808) z && Z.leb z 9223372036854775807)%Z.
+Definition checked (z : Z) : option Z := if in_i64 z then Some z else None.
 Definition arith (op : binop) (a b : Z) : option Z :=
   match op with
-  | OAdd => Some (a + b)%Z
-  | OSub => Some (a - b)%Z
-  | OMul => Some (a * b)%Z
-  | ODiv => if Z.eqb b 0 then None else Some (Z.quot a b)
-  | OMod => if Z.eqb b 0 then None else Some (Z.rem a b)
+  | OAdd => checked (a + b)%Z
+  | OSub => checked (a - b)%Z
+  | OMul => checked (a * b)%Z
+  | ODiv => if Z.eqb b 0 then None else checked (Z.quot a b)
+  | OMod => if Z.eqb b 0 then None else checked (Z.rem a b)
   end.
 
 Definition compare (op : cmpop) (a b : val) : option bool :=
